@@ -426,6 +426,11 @@ func init() {
 			c := ccontainer.NewCContainer[int](-1)
 			vsched.Observe(oVal, -1, 0, 0)
 			ctx, cancel := context.WithCancel(bg)
+			if vsched.Choose(2) == 1 {
+				// a context cancelled with a cause: the waiter still reports the context's error (ctx.Err()), not the cause
+				cctx, ccancel := context.WithCancelCause(bg)
+				ctx, cancel = cctx, func() { ccancel(errRoutine) }
+			}
 			T("W", func() { ccWait(c, 1, kind, 0, nil, ctx, nil) })
 			T("A", func() { swapTo(c, func(int) int { return -2 }) })
 			T("C", func() { vsched.CtrSet(c15Cancel, 1); cancel() })
